@@ -80,6 +80,10 @@ func main() {
 	in := bufio.NewReaderSize(os.Stdin, 1<<20)
 	out := bufio.NewWriterSize(os.Stdout, 1<<20)
 	defer out.Flush()
+	// ivg.DestinationLogger prints to os.Stdout: send that to /dev/null
+	if devnull, err := os.OpenFile(os.DevNull, os.O_WRONLY, 0); err == nil {
+		os.Stdout = devnull
+	}
 	for {
 		line, err := in.ReadString('\n')
 		line = strings.TrimRight(line, "\n")
